@@ -2,6 +2,7 @@ package dir
 
 import (
 	"context"
+	"sync"
 
 	"github.com/glebziz/fs_db/internal/model"
 )
@@ -21,6 +22,11 @@ type generator interface {
 
 type UseCase struct {
 	maxCount uint64
+
+	// m serialises Get: a full directory is retired and its replacement
+	// created in two steps, and a concurrent Get in between would find the
+	// root without any directory.
+	m sync.Mutex
 
 	dRepo   dirRepository
 	nameGen generator
